@@ -11,7 +11,9 @@ inductive AnteEffect (s : State) (tx : Tx) (s' : State) : Prop where
       (hk : (tx.hasKind .wrk || tx.hasKind .bcn) = true) (hl : s.ent.isLocked payer = true)
       (h : EB.unlockForFees { ent := s.ent, bank := s.bank } s.nowSec payer tx.fee = .ok x)
       (hs : s' = { s with ent := x.ent, bank := x.bank })
-  | deduct (src : Addr) (b : Bank) (h : s.bank.sendCoins s.nowSec src Mfee tx.fee = .ok b)
+  | deduct (payer src : Addr) (b : Bank) (hp : tx.payer = some payer)
+      (hsrc : src = payer ∨ (src, payer) ∈ s.allowances)
+      (h : s.bank.sendCoins s.nowSec src Mfee tx.fee = .ok b)
       (hs : s' = { s with bank := b })
 
 theorem feeDecorator_id (k : RegKind) (mode : Mode) (s s' : State) (tx : Tx)
@@ -54,12 +56,23 @@ theorem anteStepM_effect (mode : Mode) (tx : Tx) (s s' : State) (name : String)
       · simp only [pure_eq_ok] at h; exact .none h.symm
     · -- DeductFee
       simp only [deductFee, bind_eq_ok] at h
-      obtain ⟨payer, _, src, _, _, _, h⟩ := h
+      obtain ⟨payer, hp, src, hsrc, _, _, h⟩ := h
       split at h
       · simp only [pure_eq_ok] at h; exact .none h.symm
       · simp only [bind_eq_ok, pure_eq_ok] at h
         obtain ⟨_, _, b, hb, rfl⟩ := h
-        exact .deduct src b (asInsufficientFunds_ok _ _ hb) rfl
+        have hp' : tx.payer = some payer := by
+          unfold Tx.payerM at hp; split at hp <;> simp_all
+        have hsrc' : src = payer ∨ (src, payer) ∈ s.allowances := by
+          unfold feeSource at hsrc
+          split at hsrc
+          · cases hsrc; exact Or.inl rfl
+          · simp only [bind_eq_ok, pure_eq_ok, require_eq_ok, Bool.or_eq_true, decide_eq_true_eq] at hsrc
+            obtain ⟨_, hc, rfl⟩ := hsrc
+            rcases hc with hc | hc
+            · exact Or.inl hc
+            · exact Or.inr (by simpa using hc)
+        exact .deduct payer src b hp' hsrc' (asInsufficientFunds_ok _ _ hb) rfl
     · -- SigVerification
       simp only [stepSigVerification, bind_eq_ok] at h
       obtain ⟨_, _, h⟩ := h
